@@ -18,8 +18,8 @@ from vf.seq import outcome
 PROP = "C12"
 LEVEL = "exploration"
 RULE = ("seeded cases: initial file of 0-10 lines (empty lines, ASCII, multi-byte UTF-8, long lines; no line breaks "
-        "inside), variant in the 4 mutable classes (record variants with a pass-through and a JSON record class), "
-        "history of 5-40 operations: f[i]=x, del f[i], insert, append, extend, pop, remove, reverse, +=, mixed with "
+        "inside; with or without final newline; built index or a caller-supplied subset / permutation of line offsets), variant in the 4 mutable classes (record variants with a pass-through and a JSON record class), "
+        "history of 0-40 operations (one in nine histories contains no edit at all): f[i]=x, del f[i], insert, append, extend, pop, remove, reverse, +=, mixed with "
         "reads (len, f[i], slices, iteration, in/index/count) at in- and out-of-range positions, then save() to a "
         "path or TextIO with ending in {\\n, \\r\\n, \\t, '', '<>'} and reopen with every variant. Oracle after every "
         "operation: full content == list model, exception class == list's, dirty flag rule, source SHA-256+mtime "
@@ -79,7 +79,11 @@ def gen_case(rng, tier, index):
     ops = []
     for _ in range(rng.randint(5, 40)):
         ops.append([rng.choice(OPS), rng.randrange(1 << 20), rng.randrange(len(ALPHABET)), rng.randrange(1 << 20)])
+    if index % 9 == 4:
+        # no edit at all: an unmodified file must still save exactly its (selected) lines
+        ops = [o for o in ops if o[0] in ("get", "slice", "list", "len", "contains", "index", "count")][:6]
     return {"lines": lines, "final_nl": rng.random() < 0.7, "variant": VARIANTS[index % len(VARIANTS)], "ops": ops,
+            "index": rng.choice(["built", "built", "built", "subset", "perm"]), "index_seed": rng.randrange(1 << 20),
             "ending": ENDINGS[rng.randrange(len(ENDINGS))], "save_to": rng.choice(["path", "path", "stringio", "file"])}
 
 
@@ -142,13 +146,31 @@ def _run(case, res):
         res.count("skipped_empty_mmap")
         return
     cls = getattr(wf, vname)
+    offsets = None
+    if case.get("index", "built") != "built" and plain_lines:
+        # caller-supplied offset index: a subset or a permutation of the lines is the initial content
+        import random
+        r2 = random.Random(case.get("index_seed", 0))
+        offs, pos = [], 0
+        for l in file_lines:
+            offs.append(pos)
+            pos += len(l.encode("utf-8")) + 1
+        sel = list(range(len(offs)))[:len(plain_lines)]
+        if case["index"] == "subset":
+            sel = [i for i in sel if r2.random() < 0.6]
+        else:
+            r2.shuffle(sel)
+        if sel or "MemoryMapped" not in vname:
+            offsets = [offs[i] for i in sel]
+            plain_lines = [plain_lines[i] for i in sel]
+            file_lines = [file_lines[i] for i in sel]
     if is_rec:
         R = record_classes()[rkind]
-        obj = cls(src, R)
+        obj = cls(src, R, offsets) if offsets is not None else cls(src, R)
         mk = (lambda s, k=0: R(s)) if rkind == "raw" else (lambda s, k=0: R(s, k))
-        model = [R(s) for s in plain_lines] if rkind == "raw" else [R(s, i) for i, s in enumerate(plain_lines)]
+        model = [R(s) for s in plain_lines] if rkind == "raw" else [R.load(l) for l in file_lines]
     else:
-        obj = cls(src)
+        obj = cls(src, offsets) if offsets is not None else cls(src)
         mk = lambda s, k=0: s
         model = list(plain_lines)
     mutated = False
